@@ -526,10 +526,11 @@ punctuation, line comments with protocompile's attribution rules) and a recursiv
 of the proto3 subset the printer emits. It is validated against bufbuild/protocompile on every op
 of the `print.file` stream (same elements, source lines, attributed comments, fields, options). The
 theorem below discharges the "grammar assumed" hypothesis for the descriptor shape `SimpleFile`:
-package, imports (plain / public / weak), messages with nested messages and enums, fields (no label
-/ `repeated` / `optional`; scalar, relative, package-qualified and fully-qualified type names; any
-number, negative ones included), enum values — without options, comments, services, extensions, map
-types and custom JSON names (those are covered by the stream, not yet by the theorem). -/
+package, imports (plain / public / weak), services with methods (unary and streaming), messages with
+nested messages and enums, fields (no label / `repeated` / `optional`; scalar, relative,
+package-qualified and fully-qualified type names; any number, negative ones included), enum values —
+without options, comments, extensions, oneofs, map types and custom JSON names (those are covered by
+the stream, not yet by the theorem). -/
 
 open Layout Grammar Reparse in
 /-- **parse (print d) = d′ with d′ ≍ d, and print d′ = print d.** For every `d` whose printed
@@ -543,8 +544,9 @@ theorem C05_reparse (gen : String) (d : FileD) (h : SimpleFile gen d.arranged) :
     printFile gen (rdFile d.arranged) = printFile gen d :=
   ⟨parse_print gen d.arranged h, relaid_rdFile gen d.arranged h, reprint_simple gen d.arranged h⟩
 
-/-! non-vacuity: a file with a public import, a message with a scalar field, a repeated field of a
-package-qualified type, a nested empty message and a nested enum with a negative value -/
+/-! non-vacuity: a file with a public import, a service with a server-streaming method, a message with
+a scalar field, a repeated field of a package-qualified type, a nested empty message and a nested enum
+with a negative value -/
 section simple_example
 open Layout OptionText Grammar Reparse
 
@@ -555,7 +557,8 @@ def val (name : String) (num : Int) : Item := .field ⟨.value, Loc.none, 0, "",
 /-- a simple file in printed order -/
 def simpleEx : FileD :=
   ⟨Loc.none, "p.v1", [("a/b.proto", "public ")], [], [],
-   [ .block "message" 1 Loc.none 0 "M" []
+   [ .block "service" 0 Loc.none 0 "S" [] [ .rpc Loc.none 0 "Get" "M" "stream M.N" [] ],
+     .block "message" 1 Loc.none 0 "M" []
        [ fld "" "string" "a" 1, fld "repeated " "q.E" "b_c" 2,
          .block "message" 1 Loc.none 0 "N" [] [],
          .block "enum" 2 Loc.none 0 "E" [] [val "E_UNSPECIFIED" 0, val "E_X" (-1)] ] ]⟩
@@ -568,7 +571,7 @@ theorem kwOk_of (s : String) (h : decide (s ≠ "repeated" ∧ s ≠ "optional" 
     kwOk s := by unfold kwOk; exact of_decide_eq_true h
 
 theorem simpleEx_ok : SimpleFile "gen" simpleEx := by
-  refine ⟨by intro c hc; revert c; decide, ⟨rfl, rfl, rfl, rfl, rfl⟩, ?_, ?_, ?_, rfl, rfl, ?_, ?_⟩
+  refine ⟨by intro c hc; revert c; decide, ⟨rfl, rfl, rfl, rfl, rfl⟩, ?_, ?_, ?_, rfl, rfl, ?_⟩
   · exact ⟨"p", ["v1"], ident "p" 'p' [] (by decide) (by decide) (by decide),
       by intro r hr; simp at hr; subst hr; exact ident "v1" 'v' ['1'] (by decide) (by decide) (by decide), by decide⟩
   · intro i hi
@@ -594,13 +597,22 @@ theorem simpleEx_ok : SimpleFile "gen" simpleEx := by
     have hv1 : SimpleValue ⟨.value, Loc.none, 0, "", "", "E_X", -1, none, []⟩ :=
       ⟨rfl, ⟨rfl, rfl, rfl, rfl, rfl⟩, rfl, rfl, rfl,
         ident "E_X" 'E' ['_', 'X'] (by decide) (by decide) (by decide), by decide, rfl⟩
-    simp only [simpleEx, SimpleKids, SimpleItem, SimpleValues, fld, val]
-    exact ⟨⟨⟨rfl, rfl, rfl, rfl, rfl⟩, trivial, hM, Or.inl ⟨trivial, trivial, hfa, hfb,
-      ⟨⟨rfl, rfl, rfl, rfl, rfl⟩, trivial, hN, Or.inl ⟨trivial, trivial, trivial⟩⟩,
-      ⟨⟨rfl, rfl, rfl, rfl, rfl⟩, trivial, hE, Or.inr ⟨trivial, trivial, hv0, hv1, trivial⟩⟩, trivial⟩⟩, trivial⟩
-  · simp [simpleEx, AllBlocks, IsBlock]
+    have hmsg : SimpleItem (.block "message" 1 Loc.none 0 "M" []
+        [ fld "" "string" "a" 1, fld "repeated " "q.E" "b_c" 2, .block "message" 1 Loc.none 0 "N" [] [],
+          .block "enum" 2 Loc.none 0 "E" [] [val "E_UNSPECIFIED" 0, val "E_X" (-1)] ]) := by
+      simp only [SimpleKids, SimpleItem, SimpleValues, fld, val]
+      exact ⟨⟨rfl, rfl, rfl, rfl, rfl⟩, trivial, hM, Or.inl ⟨trivial, trivial, hfa, hfb,
+        ⟨⟨rfl, rfl, rfl, rfl, rfl⟩, trivial, hN, Or.inl ⟨trivial, trivial, trivial⟩⟩,
+        ⟨⟨rfl, rfl, rfl, rfl, rfl⟩, trivial, hE, Or.inr ⟨trivial, trivial, hv0, hv1, trivial⟩⟩, trivial⟩⟩
+    have hsvc : SimpleService (.block "service" 0 Loc.none 0 "S" [] [ .rpc Loc.none 0 "Get" "M" "stream M.N" [] ]) :=
+      ⟨⟨rfl, rfl, rfl, rfl, rfl⟩, rfl, ident "S" 'S' [] (by decide) (by decide) (by decide), rfl, rfl,
+        ⟨⟨rfl, rfl, rfl, rfl, rfl⟩, rfl, ident "Get" 'G' ['e', 't'] (by decide) (by decide) (by decide),
+          ⟨false, false, "M", [], hM, by simp, by decide, fun _ _ => by decide⟩,
+          ⟨true, false, "M", ["N"], hM, by intro r hr; simp at hr; subst hr; exact hN, by decide, fun h => by simp at h⟩⟩,
+        trivial⟩
+    exact ⟨Or.inr hsvc, Or.inl ⟨hmsg, trivial⟩, trivial⟩
 
-/-- the example is its own arrangement (one message; fields before the nested message before the enum) -/
+/-- the example is its own arrangement (the service before the message; fields before the nested message before the enum) -/
 example : simpleEx.arranged = simpleEx := by rfl
 
 end simple_example
